@@ -36,11 +36,55 @@ class ClassInfo:
 _NORMALISED = {}      # hash(source text) -> (normalised text, alpha mapping, canon report): the 20 checks of one tree share the work
 
 
+def _cache_file(text):
+    """Optional on-disk cache of normalised sources (the 20 checks of one tree, and the self-test's variants, share the work). Keyed by the source text and by
+    everything the normalisation depends on; a missing or unreadable cache only costs time."""
+    import hashlib, os
+    here = os.path.dirname(os.path.abspath(__file__))
+    h = hashlib.sha1()
+    h.update(text.encode("utf-8", "replace"))
+    for f in ("canon.py", "alpha.py", "reference_nmfu.py", "localnames.json"):
+        try:
+            with open(os.path.join(here, f), "rb") as fh:
+                h.update(hashlib.sha1(fh.read()).digest())
+        except OSError:
+            pass
+    d = os.environ.get("NMFULINT_CACHE", os.path.join(os.path.dirname(here), ".cache", "norm"))
+    return os.path.join(d, h.hexdigest() + ".json")
+
+
+def _disk_cache_get(text):
+    import json, os
+    try:
+        with open(_cache_file(text)) as f:
+            d = json.load(f)
+        canon_applied = {k: tuple(v) for k, v in d["canon"].items()}
+        return d["norm"], d["alpha"], canon_applied
+    except Exception:
+        return None
+
+
+def _disk_cache_put(text, entry):
+    import json, os, tempfile
+    try:
+        path = _cache_file(text)
+        os.makedirs(os.path.dirname(path), exist_ok=True)
+        fd, tmp = tempfile.mkstemp(dir=os.path.dirname(path))
+        with os.fdopen(fd, "w") as f:
+            json.dump({"norm": entry[0], "alpha": entry[1], "canon": {k: list(v) for k, v in entry[2].items()}}, f)
+        os.replace(tmp, path)
+    except Exception:
+        pass
+
+
 class SourceModel:
     def __init__(self, text, filename="nmfu.py"):
         self.text = text
         self.filename = filename
         key = hash(text)
+        disk = _disk_cache_get(text) if key not in _NORMALISED else None
+        if disk is not None:
+            _NORMALISED[key] = disk
         if key in _NORMALISED:
             norm, self.alpha_applied, self.canon_applied = _NORMALISED[key]
             self.tree = ast.parse(norm, filename)
@@ -59,6 +103,7 @@ class SourceModel:
                 if len(_NORMALISED) > 4:
                     _NORMALISED.clear()
                 _NORMALISED[key] = (norm, self.alpha_applied, self.canon_applied)
+                _disk_cache_put(text, _NORMALISED[key])
         self.classes = {}
         self.functions = {}       # qualified name -> FunctionDef
         self.module_assigns = {}  # name -> value node (last assignment at module level)
